@@ -10,9 +10,18 @@
 //!   sig <name|~> <filename|~> ; sk <ksize> <mol> <num> <scaled> <tracked> <v|t> <mins> <abunds> <md5>
 //!   fromsig i <loc>       Record::from_sig(sig i, loc)
 //!   lookup i              Collection::from_sigs(all sigs).sig_for_dataset(i)
+//!   lookup i <backend>    the same signatures placed in another storage, then sig_for_dataset(i):
+//!                           fs   one .sig file per signature, Collection::from_paths
+//!                           zip  a zip built here (stored entries signatures/d<i>.sig + SOURMASH-MANIFEST.csv
+//!                                from Record::from_sig), Collection::from_zipfile
+//!                           rdb  on-disk RevIndex over the fs collection, internalize_storage(), the
+//!                                .sig files deleted, Collection::from_rocksdb
+//!                           fsm  ONE .sig file holding all signatures, Collection::from_paths
+//!                         (locations are reported as the signature's position, as for memory storage)
 //!   zipcheck <path>       Collection::from_zipfile(/repo/tests/test-data/<path>): every row equals
 //!                         Record::from_sig of the one sketch sig_for_dataset returns
-use sourmash::collection::Collection;
+use sourmash::collection::{Collection, CollectionSet};
+use sourmash::index::revindex::{RevIndex, RevIndexOps};
 use sourmash::encodings::HashFunctions;
 use sourmash::manifest::{Manifest, Record};
 use sourmash::signature::{Signature, SigsTrait};
@@ -435,7 +444,7 @@ fn gen(a: &Args) {
     }
     // stream 2: records built from signatures, and the way back from a record to its sketch
     let n2 = if a.cases > 0 { a.cases } else if thorough { 20_000 } else { 900 };
-    for _ in 0..n2 {
+    for c2 in 0..n2 {
         o.case("sigs");
         let nsig = r.range(1, 4);
         let mut total = 0;
@@ -476,6 +485,60 @@ fn gen(a: &Args) {
         if r.chance(1, 4) {
             o.op(&format!("lookup {}", total + r.below(2)));
         }
+        // the same collection over filesystem and zip storage (a third of the cases); RocksDB storage
+        // needs one ksize and molecule type throughout (stream 3) — here it mostly refuses
+        if c2 % 3 == 0 {
+            for be in ["fs", "zip"] {
+                for i in 0..total {
+                    o.op(&format!("lookup {} {}", i, be));
+                }
+                if r.chance(1, 4) {
+                    o.op(&format!("lookup {} {}", total + r.below(2), be));
+                }
+            }
+            if c2 % 30 == 0 {
+                o.op("lookup 0 rdb");
+            }
+        }
+    }
+    // stream 3: collections that an on-disk index accepts (one residue ksize, one molecule type), every
+    // record looked up in memory, filesystem, zip and RocksDB storage
+    let n3 = if a.cases > 0 { a.cases / 20 + 1 } else if thorough { 800 } else { 40 };
+    for _ in 0..n3 {
+        o.case("stores");
+        let res = *r.pick(&[7u64, 10, 21, 31]);
+        let mol = *r.pick(&MOLS);
+        let nsig = r.range(1, 6);
+        let mut total = 0;
+        for _ in 0..nsig {
+            // one or two sketches: with and without abundance (so that the look-up can tell them apart)
+            let flags: Vec<bool> = match r.below(5) {
+                0 => vec![],
+                1 | 2 => vec![r.chance(1, 2)],
+                _ => if r.chance(1, 2) { vec![false, true] } else { vec![true, false] },
+            };
+            let none_name = flags.len() == 1 && r.chance(1, 3);
+            let name = if none_name { "~".to_string() } else { hex(gen_string(&mut r).as_bytes()) };
+            let fname = if r.chance(1, 2) { "~".to_string() } else { hex(gen_string(&mut r).as_bytes()) };
+            if name == "~" && fname == "~" && flags.len() != 1 {
+                continue;
+            }
+            o.op(&format!("sig {} {}", name, fname));
+            for tr in &flags {
+                let g = gen_sketch(&mut r, res, mol, *tr);
+                let md5 = md5_of(&build_sketch(&format!("sk {}", g.words()).split(' ').collect::<Vec<_>>(), 0));
+                o.op(&format!("sk {} {}", g.words(), md5));
+            }
+            total += flags.len() as u64;
+        }
+        for be in ["", " fs", " zip", " rdb"] {
+            for i in 0..total {
+                o.op(&format!("lookup {}{}", i, be));
+            }
+            if r.chance(1, 3) {
+                o.op(&format!("lookup {}{}", total + r.below(2), be));
+            }
+        }
     }
 }
 
@@ -485,6 +548,146 @@ fn gen(a: &Args) {
 struct St {
     recs: Vec<Record>,
     sigs: Vec<Signature>,
+    /// bumped by every `sig` / `sk` line: a stored collection is rebuilt when the signatures changed
+    version: u64,
+    stored: std::collections::BTreeMap<String, Stored>,
+}
+
+/// a collection over one of the non-memory storages, built once per case and backend
+struct Stored {
+    version: u64,
+    _dir: tempfile::TempDir,
+    coll: Result<Collection, String>,
+}
+
+fn err_name<E: std::fmt::Debug>(e: E) -> String {
+    let s = format!("{:?}", e);
+    format!("err {}", s.chars().take_while(|c| c.is_alphanumeric()).collect::<String>())
+}
+
+fn crc32(data: &[u8]) -> u32 {
+    let mut c = 0xFFFF_FFFFu32;
+    for &b in data {
+        c ^= b as u32;
+        for _ in 0..8 {
+            c = if c & 1 != 0 { (c >> 1) ^ 0xEDB8_8320 } else { c >> 1 };
+        }
+    }
+    !c
+}
+
+/// a zip archive with stored (uncompressed) entries — the crate only reads zips (`piz`), it has no writer
+fn zip_bytes(entries: &[(String, Vec<u8>)]) -> Vec<u8> {
+    let mut out: Vec<u8> = vec![];
+    let mut central: Vec<u8> = vec![];
+    for (name, data) in entries {
+        let off = out.len() as u32;
+        let crc = crc32(data);
+        let mut common: Vec<u8> = vec![];
+        common.extend(20u16.to_le_bytes()); // version needed
+        common.extend(0x0800u16.to_le_bytes()); // flags: UTF-8 names
+        common.extend(0u16.to_le_bytes()); // method: stored
+        common.extend(0u16.to_le_bytes()); // time
+        common.extend(0x21u16.to_le_bytes()); // date 1980-01-01
+        common.extend(crc.to_le_bytes());
+        common.extend((data.len() as u32).to_le_bytes());
+        common.extend((data.len() as u32).to_le_bytes());
+        common.extend((name.len() as u16).to_le_bytes());
+        common.extend(0u16.to_le_bytes()); // extra length
+        out.extend(0x0403_4b50u32.to_le_bytes());
+        out.extend(&common);
+        out.extend(name.as_bytes());
+        out.extend(data);
+        central.extend(0x0201_4b50u32.to_le_bytes());
+        central.extend(20u16.to_le_bytes()); // version made by
+        central.extend(&common);
+        central.extend(0u16.to_le_bytes()); // comment length
+        central.extend(0u16.to_le_bytes()); // disk number
+        central.extend(0u16.to_le_bytes()); // internal attributes
+        central.extend(0u32.to_le_bytes()); // external attributes
+        central.extend(off.to_le_bytes());
+        central.extend(name.as_bytes());
+    }
+    let cd_off = out.len() as u32;
+    out.extend(&central);
+    out.extend(0x0605_4b50u32.to_le_bytes());
+    out.extend(0u16.to_le_bytes());
+    out.extend(0u16.to_le_bytes());
+    out.extend((entries.len() as u16).to_le_bytes());
+    out.extend((entries.len() as u16).to_le_bytes());
+    out.extend((central.len() as u32).to_le_bytes());
+    out.extend(cd_off.to_le_bytes());
+    out.extend(0u16.to_le_bytes());
+    out
+}
+
+fn build_stored(sigs: &[Signature], be: &str, version: u64) -> Stored {
+    use camino::Utf8PathBuf;
+    use verif_harness::index_util::{scratch_dir, write_sig_files};
+    let dir = scratch_dir();
+    let coll: Result<Collection, String> = (|| match be {
+        "fs" => {
+            let paths = write_sig_files(&dir.path().join("sigs"), sigs);
+            Collection::from_paths(&paths).map_err(err_name)
+        }
+        "fsm" => {
+            std::fs::create_dir_all(dir.path().join("sigs")).unwrap();
+            let p = dir.path().join("sigs").join("d0.sig");
+            serde_json::to_writer(std::fs::File::create(&p).unwrap(), &sigs.to_vec()).unwrap();
+            Collection::from_paths(&[Utf8PathBuf::from_path_buf(p).unwrap()]).map_err(err_name)
+        }
+        "zip" => {
+            let mut entries: Vec<(String, Vec<u8>)> = vec![];
+            let mut recs: Vec<Record> = vec![];
+            for (i, sig) in sigs.iter().enumerate() {
+                let name = format!("signatures/d{}.sig", i);
+                recs.extend(Record::from_sig(sig, &name));
+                entries.push((name, serde_json::to_vec(&vec![sig]).unwrap()));
+            }
+            let m: Manifest = recs.into();
+            let mut buf = vec![];
+            m.to_writer(&mut buf).unwrap();
+            entries.push(("SOURMASH-MANIFEST.csv".into(), buf));
+            let p = dir.path().join("c.zip");
+            std::fs::write(&p, zip_bytes(&entries)).unwrap();
+            Collection::from_zipfile(Utf8PathBuf::from_path_buf(p).unwrap()).map_err(err_name)
+        }
+        "rdb" => {
+            let sigdir = dir.path().join("sigs");
+            let paths = write_sig_files(&sigdir, sigs);
+            let cs: CollectionSet = Collection::from_paths(&paths).map_err(err_name)?.try_into().map_err(err_name)?;
+            let idx_dir = Utf8PathBuf::from_path_buf(dir.path().join("idx")).unwrap();
+            {
+                let mut idx = RevIndex::create(idx_dir.as_path(), cs, false).map_err(err_name)?;
+                idx.internalize_storage().map_err(err_name)?;
+            }
+            // the signatures now live inside the database only
+            std::fs::remove_dir_all(&sigdir).unwrap();
+            Collection::from_rocksdb(idx_dir.as_path()).map_err(err_name)
+        }
+        _ => Err("bad-backend".into()),
+    })();
+    Stored { version, _dir: dir, coll }
+}
+
+/// `…/d<i>.sig` -> `<i>`: the position of the signature, which is what memory storage uses as location
+fn canon_loc(loc: &str) -> String {
+    let last = loc.rsplit('/').next().unwrap_or(loc);
+    match last.strip_prefix('d').and_then(|x| x.strip_suffix(".sig")) {
+        Some(n) if !n.is_empty() && n.bytes().all(|b| b.is_ascii_digit()) => n.to_string(),
+        _ => loc.to_string(),
+    }
+}
+
+fn lookup_in(c: &Collection, i: u32) -> String {
+    match c.sig_for_dataset(i) {
+        Ok(s) => {
+            let loc = canon_loc(c.manifest()[i as usize].internal_location().as_str());
+            let v: Vec<String> = Signature::from(s).iter().map(descr).collect();
+            format!("{}={}", loc, if v.is_empty() { "-".into() } else { v.join(";") })
+        }
+        Err(e) => format!("err {:?}", e),
+    }
 }
 
 fn build_sketch(ws: &[&str], j: usize) -> Sketch {
@@ -587,6 +790,7 @@ fn step(st: &mut St, ws: &[&str]) -> String {
                 sig.set_filename(&s_of(ws[2]));
             }
             st.sigs.push(sig);
+            st.version += 1;
             "ok".into()
         }
         "sk" => {
@@ -594,6 +798,7 @@ fn step(st: &mut St, ws: &[&str]) -> String {
             let sk = build_sketch(ws, sig.size());
             let d = descr(&sk);
             sig.push(sk);
+            st.version += 1;
             d
         }
         "fromsig" => {
@@ -601,16 +806,20 @@ fn step(st: &mut St, ws: &[&str]) -> String {
             let recs = Record::from_sig(sig, &s_of(ws[2]));
             show_records(recs.iter())
         }
-        "lookup" => {
+        "lookup" if ws.len() == 2 => {
             let c = Collection::from_sigs(st.sigs.clone()).unwrap();
-            let i: u32 = ws[1].parse().unwrap();
-            match c.sig_for_dataset(i) {
-                Ok(s) => {
-                    let loc = c.manifest()[i as usize].internal_location().to_string();
-                    let v: Vec<String> = Signature::from(s).iter().map(descr).collect();
-                    format!("{}={}", loc, if v.is_empty() { "-".into() } else { v.join(";") })
-                }
-                Err(e) => format!("err {:?}", e),
+            lookup_in(&c, ws[1].parse().unwrap())
+        }
+        "lookup" => {
+            let be = ws[2];
+            if st.stored.get(be).map(|b| b.version) != Some(st.version) {
+                st.stored.remove(be);
+                let b = build_stored(&st.sigs, be, st.version);
+                st.stored.insert(be.to_string(), b);
+            }
+            match &st.stored[be].coll {
+                Ok(c) => lookup_in(c, ws[1].parse().unwrap()),
+                Err(e) => e.clone(),
             }
         }
         "zipcheck" => {
